@@ -9,12 +9,15 @@ package tempfile
 //@ import io io
 
 // Typestate of one atomic file replacement (ghost): 0 nothing, 1 temporary file created, 2 all data written to it,
-// 3 temporary file closed, 4 renamed over the target. The contracts of the os calls below are ASSUMED.
+// 3 temporary file closed, 4 renamed over the target; a failed creation resets it to 0. The contracts of the os calls below are ASSUMED.
 //@ ghost var fsPhase int
+
+// ASSUMED about the standard library: its sentinel error values are not nil.
+//@ axiom stdlib_errs: io.ErrShortWrite != nil
 
 //@ extern os.OpenFile
 //@   assigns fsPhase
-//@   ensures created: (result1 == nil ==> (result0 != nil && fsPhase == 1)) && (result1 != nil ==> fsPhase == old(fsPhase))
+//@   ensures created: (result1 == nil ==> (result0 != nil && fsPhase == 1)) && (result1 != nil ==> fsPhase == 0)
 //@ extern os.File.Write
 //@   assigns fsPhase
 //@   ensures n: result1 == nil ==> (0 <= result0 && result0 <= len(b))
@@ -46,8 +49,6 @@ package tempfile
 // The target is replaced (phase 4) exactly when nil is returned, and only by renaming a temporary file that was
 // created, completely written and closed first.
 //@ func WriteFileAtomic
-//@   requires start: fsPhase == 0
-//@   requires stdlib: io.ErrShortWrite != nil
 //@   assigns fsPhase, atomicWriteFileRand
 //@   ensures done: result == nil <==> fsPhase == 4
-//@   loop 1 invariant phase: fsPhase == 0 && 0 <= i && i <= atomicWriteFileMaxNumWriteAttempts
+//@   loop 1 invariant phase: 0 <= i && i <= atomicWriteFileMaxNumWriteAttempts && ((i == 0 && fsPhase == old(fsPhase)) || (i > 0 && fsPhase == 0))
